@@ -317,10 +317,18 @@ def rule_CF(ctx, tier):
                 last = (call_target(t) or "").split("::")[-1]
                 if last in ("unknown_field", "missing_field", "unknown_variant"):
                     badc.setdefault(last, P.bodies[bid].line_of(bb))
+        # an absent key takes the value of the struct's own Default (the documented default), not the default of its type:
+        # a field-level #[serde(default)] wins over the container-level one and yields 0 / false / ""
+        own = "<%s as std::default::Default>::default" % cfgty
+        for bid in fam:
+            for bb, t in P.bodies[bid].calls():
+                tg_ = call_target(t) or ""
+                if tg_.split("::")[-1] == "default" and "Default" in tg_ and tg_ != own and "PhantomData" not in tg_:
+                    badc.setdefault("type-default:" + tg_.split(" as ")[0].lstrip("<")[-30:], P.bodies[bid].line_of(bb))
         if not badc:
-            rr.ok("%s: unknown keys ignored, absent keys defaulted (%d generated bodies)" % (cfgty, len(fam)))
+            rr.ok("%s: unknown keys ignored, absent keys take the value of the struct's own Default (%d generated bodies)" % (cfgty, len(fam)))
         for last, wh in sorted(badc.items()):
-            rr.fail("file-layer-voided:%s:%s" % (cfgty.split("::")[-2], last), "the deserialiser of `%s` raises `%s`: the configuration file is shared by teosd and teos-cli, so any ordinary teos.toml then fails to parse for this reader and `from_file` silently falls back to the defaults — the file layer of 'command line over file over defaults' is gone" % (cfgty, last), where=wh)
+            rr.fail("file-layer-voided:%s:%s" % (cfgty.split("::")[-2], last), ("the deserialiser of `%s` fills an absent key with `%s`, the default of the field's TYPE, instead of the value `Config::default()` documents for it" % (cfgty, last[13:])) if last.startswith("type-default:") else ("the deserialiser of `%s` raises `%s`: the configuration file is shared by teosd and teos-cli, so any ordinary teos.toml then fails to parse for this reader and `from_file` silently falls back to the defaults — the file layer of 'command line over file over defaults' is gone" % (cfgty, last)), where=wh)
     # unknown network => Err
     unk = [bb for bb in errs if not (auth_possible(bb) & {"Invalid", "Multiple"})]
     if unk:
